@@ -1,6 +1,6 @@
 From QV.lib Require Import Prelude C11_Heap.
 From QV.model Require Import C11_Model.
 From QV.proof Require Import C11_Proofs.
-Theorem C11_stub : run [] init = init.
-Proof. exact stub. Qed.
-Print Assumptions C11_stub.
+Theorem C11_vec_inv_reachable : forall ops, SInv (run ops init).
+Proof. exact vec_inv_reachable. Qed.
+Print Assumptions C11_vec_inv_reachable.
